@@ -897,6 +897,12 @@ def check_c08(prog, rep, tier, cfg):
     # a gap nobody decides keeps the input's blank count: more than one space between two tokens on a line
     gap_coverage(prog, rep, "C08.e")
     children_of_voided_lines_are_laid_out(prog, rep, "C08.f")
+    # C08.g — every blank of the input is scanned as leading whitespace (and so replaced by the decided counters): the scanner's blank
+    # set is {<= U+0020, U+3000} and it stops only in front of a non-blank; a blank that is left over becomes an `Unknown` token and
+    # is emitted as it is (shared with C13.b / C01.e)
+    import lexer_rules as _lx
+    _lx.blank_definition(prog, rep, "C08.g")
+    _lx.blank_scanner_stops_only_at_non_blank(prog, rep, "C08.g")
     # ---------------------------------------------------------------- C08.a emission order and counter<->string pairing
     R = "C08.a"
     cl = prog.body(RCL)
